@@ -125,8 +125,10 @@ class Environment(DataStoreMixin):
 
     """
 
-    def __init__(self, factory=ObjectFactory(), store=None, source=None, sink=None):
-        self.factory = factory
+    def __init__(self, factory=None, store=None, source=None, sink=None):
+        # (a factory of its own: a default argument would be one factory
+        # shared, defaults and all, by every environment)
+        self.factory = ObjectFactory() if factory is None else factory
         self.source = CompositeDataSource()
         if store:
             self.source.add_data_source(store.source)
